@@ -25,10 +25,12 @@ theorem step_cbReturn {c : Cfg} {s s' : State} {n : Node} {r : Res} :
       n ∈ c.sel ∧ s.phase n = .running ∧
       ((r = .ok ∧ { s with phase := set s.phase n (.returned true) } = s') ∨
        (r = .fail ∧ { s with phase := set s.phase n (.returned false) } = s') ∨
-       (r = .cancelled ∧ s.ctx = true ∧ { s with phase := set s.phase n .aborted } = s')) := by
+       (r = .cancelled ∧ s.ctx = true ∧ { s with phase := set s.phase n .aborted } = s') ∨
+       (r = .cancelled ∧ s.ctx = false ∧ { s with phase := set s.phase n (.returned false) } = s')) := by
   simp only [step]
   split
   · cases r <;> simp_all
+    cases hc : s.ctx <;> simp [hc]
   · simp_all
 
 theorem step_complete {c : Cfg} {s s' : State} {n : Node} :
@@ -165,7 +167,7 @@ theorem inv_exit {c : Cfg} {s s' : State} {n : Node} (h : Inv c s)
 theorem inv_cbReturn {c : Cfg} {s s' : State} {n : Node} {r : Res} (h : Inv c s)
     (hs : step c s (.cbReturn n r) = some s') : Inv c s' := by
   obtain ⟨hsel, hph, hr⟩ := step_cbReturn.mp hs
-  rcases hr with ⟨_, rfl⟩ | ⟨_, rfl⟩ | ⟨_, hc, rfl⟩ <;>
+  rcases hr with ⟨_, rfl⟩ | ⟨_, rfl⟩ | ⟨_, hc, rfl⟩ | ⟨_, hc, rfl⟩ <;>
   constructor <;> simp only [set] <;>
     grind [Inv, allTerminal_iff, Phase.started, Phase.terminal]
 
